@@ -7,11 +7,46 @@ one-centre parameters -- diagonalised with LAPACK, and the returned energies / a
 against it.  The repository's own sigma builder applied to unit vectors is compared with the dense
 matrices as a *consistency monitor* (it names the mechanism when the two disagree, it is not the oracle);
 the dense integrals themselves are guarded by (ss|ss) = Klopman-Ohno(R) per pair and by
-C^T (Hcore + G[P]) C = diag(e_mo).
+C^T (Hcore + G[P]) C = diag(e_mo) (a failing guard makes the case inconclusive, never a violation).
 
 Solver paths driven: rcis_batch (one molecule, homogeneous batches, orbital windows, supplied start
 vectors, amplitude reuse along geometry sequences with and without `make_best_guess`), rcis_any_batch
-(mixed batches with padding), rpa (default start, supplied start, reuse of the X amplitudes).
+(mixed batches with padding), rpa (default start, supplied start, reuse of the orthonormalised X amplitudes,
+orbital window).
+
+Stopping rule of the code under test (read from rcis_batch.py / rcis_new.py / rpa.py, the documentation only says
+"convergence criterion"): a root is converged when  max_ia |(A x - E x)_ia| <= tolerance  (RPA: the larger of the
+inf-norms of (A-B)(X-Y) - w(X+Y) and (A+B)(X+Y) - w(X-Y));  a molecule ALSO leaves the loop when every new
+correction vector falls below vector_tol (0.01 sqrt(nov) tol, RPA 0.02 tol) -- the "stagnation exit", observed by
+wrapping `orthogonalize_to_current_subspace`.
+
+Clauses and bounds (tol = requested tolerance, nov = active singles, m = roots returned)
+  ascending            E_{k+1} >= E_k - 1e-12
+  positive             E_k > 0 when the dense spectrum says the reference is stable
+  eigenvalues          -1e-9 <= E_k - lambda_k <= sqrt(m nov) tol + 1e-9      (index-wise: multiplicity aware, a skipped
+                       root shows up as E_k matching lambda_j, j > k);  RPA: |E_k - w_k| <= c_k sqrt(m nov) tol + 1e-9,
+                       c_k = 1.25 * [sqrt(w_k / mu_min(A-B)) + sqrt(mu_max(A-B) / w_k)] / 2  from the dense matrices
+  orthonormal          |X X^T - 1| <= 1e-8     (RPA: |X X^T - Y Y^T - 1| <= 1e-8)
+  residual             inf-norm with the DENSE matrices <= 1.05 tol + 1e-11  (the code's own rule, 5 % allowance)
+  eigenvector          ||(1 - P_level) x_k|| <= 2 sqrt(nov) 1.05 tol / gap + 1e-8   (Davis-Kahan, P_level = projector on the
+                       dense eigenspace of the level E_k belongs to; degenerate levels handled as subspaces)
+  same answer          energies of two runs at one geometry (random start, reuse modes, batch vs alone) agree within the sum
+                       of their eigenvalue bounds + 2e-6 (SCF allowance, 1e4 x scf_eps); complete levels are compared through
+                       AO-basis transition-density projectors, sin(theta) <= 2 [2 sqrt(m_l nov) 1.05 tol + 2e-6] / gap + 1e-7;
+                       skipped (counted) when the two runs sit on different SCF solutions (|dEtot| > 1e-5)
+  RPA <= CIS           E_RPA,k - E_CIS,k <= RPA eigenvalue bound + 1e-9
+
+Mechanism keys (deterministic classifiers over the witness)
+  davidson-root-skipped-{symmetric,asymmetric}-geometry-{default-guess,amplitude-reuse,random-guess}
+        every returned pair is an eigenpair but a lower dense eigenvalue is missing; "symmetric" = the nuclear framework has
+        a non-trivial point-group operation (degenerate principal moments or a sign-flip operation in the principal frame)
+  davidson-stagnation-exit-residual-above-tol      residual > 1.05 tol after a stagnation exit, within twice the natural
+        scale of that rule (vector_tol * max|E - (e_a - e_i)|);   ...-residual-far-above-tol  beyond it
+  residual-above-tol-without-stagnation-exit-<start>
+  rcis-any-batch-negative-roots-vs-zero-padding    unstable reference inside a mixed batch: zeros returned instead of roots
+  rpa-orbital-window-silently-ignored
+  sigma-build-differs-from-dense                   the monitor saw the repository's sigma vectors disagree with dense A / B
+  <clause>-<solver>-<start>                        everything else
 """
 import math
 
@@ -21,7 +56,7 @@ from vlib import gen
 
 PROPERTY = "C16"
 RULE = ("case kinds: point (one geometry; CIS default start + random orthonormal starts, RPA default + random start, "
-        "RPA<=CIS), window (CIS in an orbital window), seq (5-point geometry sequence on ONE Molecule object, amplitude "
+        "RPA<=CIS), window (CIS and RPA in an orbital window), seq (5-point geometry sequence on ONE Molecule object, amplitude "
         "reuse with make_best_guess / raw reuse / no reuse, each point also solved fresh), hbatch (same species, "
         "different geometries, vs alone), mbatch (different molecules padded into one batch -> rcis_any_batch, vs alone). "
         "Every finished solve is judged against the dense A/B built from its own returned orbitals.  A case is "
@@ -456,7 +491,10 @@ class Acc:
         return r > 1.0
 
     def v(self, clause, mech, **detail):
-        if len(self.viol) < 12:
+        # at most two witnesses per (clause, mechanism) and twelve per case
+        same = sum(1 for x in self.viol if x["clause"] == clause and x["mech"] == mech)
+        self.m("violations_seen/" + str(mech))
+        if same < 2 and len(self.viol) < 12:
             self.viol.append({"clause": clause, "mech": mech, "detail": detail})
 
 
@@ -708,7 +746,8 @@ def _judge(acc, mol, b, run, cache, do_sigma=True):
            "sigma_vs_dense": [ref["sigma_dA"], ref["sigma_dB"]], "returned": E.tolist(), "stagnation": st}
     rec = {"E": E, "ref": ref, "X": X, "ok": True, "Etot": float(mol.Etot[b]), "label": run["label"]}
     acc.m("solves_judged")
-    acc.cells.append("%s/%s/tol%g/%s" % (solver, start, tol, "window" if window else "full"))
+    acc.cells.append("%s/%s/tol%g/%s/%s" % (solver, start, tol, "window" if window else "full",
+                                            "symmetric" if _is_symmetric(ref["d"]["Z"], ref["d"]["X"]) else "asymmetric"))
     if nov > m and (run.get("iters") or 0) >= 2:
         acc.nontrivial = True
         acc.m("iterative_solves")
@@ -927,8 +966,7 @@ def _compare_runs(acc, base, var, tol_b, tol_v, n_req, nov, what, mech):
         if bv > 0.3:
             continue
         Q1, Q2 = ao(base, ks), ao(var, ks)
-        s = np.linalg.svd(Q1 @ Q2.T, compute_uv=False)
-        sin = math.sqrt(max(0.0, 1.0 - float(s.min()) ** 2))
+        sin = float(np.linalg.norm(Q1 - (Q1 @ Q2.T) @ Q2, 2))   # largest canonical sine, accurate for small angles
         acc.m("level_projectors_compared")
         if acc.margin("same_answer_subspace/" + what, sin, bv):
             acc.v("history-dependent-subspace", mech, what=what, level=[k + 1 for k in ks], sin_theta=sin, bound=bv)
